@@ -95,6 +95,8 @@ pub fn run(id: &str) -> i32 {
             let x = wcet::ExtrapolatingCurve::new(wcet::Curve::new(vec![s(1), s(1), s(3)]));
             x.cost_of_jobs(4) < x.cost_of_jobs(3)
         }
+        // KF14: a source that never releases anything cannot be converted into a delta-min Curve (constructor panics)
+        "KF14" => { catch_unwind(|| Curve::from_arrival_bound(&Never {}, 5)).is_err() && catch_unwind(|| Curve::from_arrival_bound_until(&Never {}, d(5))).is_err() }
         _ => { eprintln!("unknown witness {}", id); return 2; }
     };
     println!("{} {}", id, if reproduces { "reproduces" } else { "does not reproduce" });
